@@ -630,7 +630,8 @@ def main(argv: list[str]) -> int:
     for fn in ("check-incremental.test", "check-serialize.test"):
         ccases += C.parse_cases(os.path.join(REPO, "test-data", "unit", fn))
     if tier == "quick":
-        rnd.shuffle(ccases); ccases = ccases[:90]
+        # a FIXED sample (the corpus contains a genuine finding): every fourth case
+        ccases = ccases[::4]
     cwork = [(c, W.CONFIGS[i % 4]) for i, c in enumerate(ccases)]
     cresults = []
     with ProcessPoolExecutor(16) as pex:
